@@ -76,7 +76,11 @@ impl<K: Ord + Clone, V: Clone> BPlusTreeMap<K, V> {
         // Optimize start bound resolution - eliminate redundant Option handling
         let (start_info, skip_first) = match range.start_bound() {
             Bound::Included(key) => (self.find_leaf_for_key(key), false),
-            Bound::Excluded(key) => (self.find_leaf_for_key(key), true),
+            Bound::Excluded(key) => match self.find_leaf_for_key_with_match(key) {
+                // Only skip the first item when it is the excluded key itself
+                Some((leaf_id, index, matched)) => (Some((leaf_id, index)), matched),
+                None => (None, false),
+            },
             Bound::Unbounded => (self.get_first_leaf_id().map(|id| (id, 0)), false),
         };
 
